@@ -26,11 +26,12 @@ type Extra struct {
 func (w *World) extraChecks(id string, opts *RunOpts) *Extra {
 	ex := &Extra{Coverage: map[string]interface{}{}}
 	w.witnessFindings(id, opts, ex)
-	if id == "C14" {
-		w.boundedC14(opts, ex)
+	if id == "C14" || id == "C01" {
+		// C01: an identifier that is not a valid Go identifier does not compile
+		w.boundedC14(id, opts, ex)
 	}
 	w.callOrder(id, opts, ex)
-	if id == "C01" || id == "C06" || id == "C08" {
+	if id == "C01" || id == "C06" || id == "C08" || id == "C09" {
 		w.fmtSweep(id, opts, ex)
 	}
 	if id == "C16" {
